@@ -120,3 +120,151 @@ func VerifH_C03_checkpointConflict() {
 	}
 	_ = anyTrueFull
 }
+
+// VerifH_C03_checkpointVsStore: the same decision with the checkpoint
+// interval shrunk to 2 blocks (source transform), so that the parts of
+// resolveConflict / checkCFCheckptSanity that compare served lists with
+// filter headers the client has already committed are reachable: the
+// filter-header store holds the true chain up to any height 0..6, the
+// harness network has hard-coded filter-header checkpoints at heights 2
+// and 6 (list entries 0 and 2).  Peers serve lists of 1..3 entries, any
+// entry false; the follow-up cfheaders round is answered truthfully by
+// everybody (a liar lies in its checkpoint list only) or by nobody.
+func VerifH_C03_checkpointVsStore() {
+	vpOpt("maporder", 2)
+	if maxCFCheckptsPerQuery != 2 || vpCFCheckptInterval != 2 {
+		vpAssert(false, "cpstore:checkpoint-interval-overlay-in-place")
+		return
+	}
+	params := vpRegtestParams()
+	params.Net = vpHarnessNet
+	const n = 6
+	ft := vpRange("filterTip", 0, n)
+	e := vpNewBMEnv(n, n, ft, params)
+	if e == nil {
+		return
+	}
+	truth := []chainhash.Hash{e.filters[2], e.filters[4], e.filters[6]}
+	hardCoded := []bool{true, false, true}
+	addrs := []string{"10.0.0.1:8333", "10.0.0.2:8333", "10.0.0.3:8333"}
+	npeers := vpRange("peers", 1, vpParam("cppeers", 2))
+	answered := vpRange("followUpAnswered", 0, 1) == 1
+	sps := make([]*ServerPeer, npeers)
+	for p := range sps {
+		sps[p] = vpMkServerPeer(addrs[p])
+	}
+	followUps := 0
+	e.bm.cfg.queryAllPeers = func(queryMsg wire.Message,
+		checkResponse func(sp *ServerPeer, resp wire.Message, quit chan<- struct{}, peerQuit chan<- struct{}),
+		options ...QueryOption) {
+
+		q, ok := queryMsg.(*wire.MsgGetCFHeaders)
+		if !ok {
+			return
+		}
+		followUps++
+		if !answered {
+			return
+		}
+		quit := make(chan struct{})
+		for p := 0; p < npeers; p++ {
+			resp := wire.NewMsgCFHeaders()
+			resp.FilterType = q.FilterType
+			resp.StopHash = q.StopHash
+			if q.StartHeight > 0 {
+				resp.PrevFilterHeader = e.filters[q.StartHeight-1]
+			}
+			for h := int(q.StartHeight); h <= n; h++ {
+				fh := chainhash.Hash{0xa0, byte(h)}
+				_ = resp.AddCFHash(&fh)
+			}
+			checkResponse(sps[p], resp, quit, make(chan struct{}))
+		}
+	}
+	cps := map[string][]*chainhash.Hash{}
+	served := map[string][]*chainhash.Hash{}
+	contradicts := map[string]bool{}      // a hard-coded checkpoint
+	contradictsStore := map[string]bool{} // a filter header the client has committed
+	for p := 0; p < npeers; p++ {
+		ln := vpRange("listLength", 1, 3)
+		var l []*chainhash.Hash
+		for i := 0; i < ln; i++ {
+			v := truth[i]
+			if vpRange("entryFalse", 0, 1) == 1 {
+				v[9] ^= byte(0x10 + p)
+				if hardCoded[i] {
+					contradicts[addrs[p]] = true
+				}
+				if 2*(i+1) <= ft {
+					contradictsStore[addrs[p]] = true
+				}
+			}
+			vc := v
+			l = append(l, &vc)
+		}
+		cps[addrs[p]] = l
+		served[addrs[p]] = l
+	}
+	res, err := e.bm.resolveConflict(cps, e.fs, wire.GCSFilterRegular)
+	if err == nil {
+		vpReach("a-list-was-chosen")
+		vpAssert(len(res) > 0, "cpstore:chosen-list-non-empty")
+		for i := range res {
+			if i < len(truth) && hardCoded[i] {
+				vpAssert(*res[i] == truth[i], "cpstore:chosen-checkpoint-list-equals-every-hard-coded-checkpoint")
+			}
+			if i < len(truth) && 2*(i+1) <= ft {
+				vpReach("chosen-list-covers-committed-filter-headers")
+				vpAssert(*res[i] == truth[i], "cpstore:chosen-checkpoint-list-agrees-with-the-committed-filter-headers")
+			}
+		}
+	} else {
+		vpReach("no-list-chosen")
+	}
+	for _, a := range addrs[:npeers] {
+		if contradicts[a] {
+			vpReach("peer-contradicts-a-hard-coded-checkpoint")
+			if 2 <= ft {
+				vpReach("peer-contradicts-a-hard-coded-checkpoint-below-the-filter-tip")
+			}
+			banned := false
+			for _, b := range e.bans {
+				if b.addr == a && b.reason == banman.InvalidFilterHeaderCheckpoint {
+					banned = true
+				}
+			}
+			vpAssert(banned, "cpstore:peer-contradicting-a-hard-coded-checkpoint-is-banned")
+		}
+	}
+	// a peer whose list is true in every entry is never banned when the
+	// follow-up round is answered
+	if answered {
+		for _, a := range addrs[:npeers] {
+			allTrue := true
+			for i, h := range served[a] {
+				if *h != truth[i] {
+					allTrue = false
+				}
+			}
+			if allTrue {
+				for _, b := range e.bans {
+					vpAssert(b.addr != a, "cpstore:peer-serving-only-true-checkpoints-is-not-banned")
+				}
+			}
+		}
+	}
+	// when every list is a prefix of the truth a list is chosen without any follow-up
+	allPrefix := true
+	for _, a := range addrs[:npeers] {
+		for i, h := range served[a] {
+			if *h != truth[i] {
+				allPrefix = false
+			}
+		}
+	}
+	if allPrefix {
+		vpReach("all-lists-true")
+		vpAssert(err == nil && len(e.bans) == 0 && followUps == 0, "cpstore:agreeing-true-lists-are-accepted-and-nobody-is-banned")
+	}
+	_ = contradictsStore
+}
